@@ -263,6 +263,12 @@ func main() {
 					if fails && failkind == "before" {
 						t.Failf("custom function fails before writing")
 					}
+					if fails && failkind == "panic" {
+						panic("custom function panics with a message before writing")
+					}
+					if fails && failkind == "panicerr" {
+						panic(fmt.Errorf("custom function panics with an error value before writing"))
+					}
 					for i, op := range outPorts {
 						if fails && failkind == "partial" {
 							t.OutIP(op).Write([]byte("PARTIAL"))
